@@ -31,8 +31,8 @@ CHECKS["C08"] = {
         {"pkg": "graphql", "harness": "Harness_C08_writeQuotedString", "reach": ["quoted.checked"],
          "quick": {"params": {"n": 3}, "workers": 8}, "thorough": {"params": {"n": 4}, "workers": 14},
          "what": "writeQuotedString on every byte string of length n: RFC 8259 token, RFC 3629 validity, decode = input with U+FFFD"},
-        {"pkg": "graphql", "harness": "Harness_C08_MarshalStringID", "reach": ["quoted.checked"], "quick": {"params": {"n": 2}}, "thorough": {"params": {"n": 3}},
-         "what": "MarshalString / MarshalID through the Marshaler interface on every byte string of length n"},
+        {"pkg": "graphql", "harness": "Harness_C08_MarshalStringID", "reach": ["quoted.checked"], "quick": {"params": {"n": 2, "omittable": 1}}, "thorough": {"params": {"n": 3, "omittable": 1}},
+         "what": "MarshalString / MarshalID through the Marshaler interface, Omittable[string].MarshalGQL / MarshalGQLContext, on every byte string of length n"},
         {"pkg": "graphql", "harness": "Harness_C08_intRoundTrip", "reach": ["c08.ints"], "quick": {"sample_models": 100},
          "what": "Marshal{Int,Int64,Int32,Uint64,Uint32,IntID,UintID} -> JSON decode -> Unmarshal* on a 12-value boundary grid"},
         {"pkg": "graphql", "harness": "Harness_C08_composition", "reach": ["c08.composition"], "workers": 8, "quick": {"params": {"depth": 2}, "sample_models": 60, "sample_every": 17}, "thorough": {"params": {"depth": 2}, "workers": 14, "sample_models": 100, "sample_every": 97},
@@ -72,8 +72,8 @@ _HTTP = {"pkg": "graphql/handler", "workers": 8}
 CHECKS["C09"] = {
     "assumptions": ["http.ResponseWriter fake freezes headers at WriteHeader like net/http; request built in memory (no sockets)"],
     "harnesses": [
-        dict(_HTTP, harness="Harness_C09_http", setup="Setup_C09_http", reach=["http.executed", "http.refused"],
-             what="Server.ServeHTTP -> GET.Do / POST.Do -> real Executor over 10 documents x operationName x 9 Accept headers x 4 ResponseHeaders configurations"),
+        dict(_HTTP, harness="Harness_C09_http", setup="Setup_C09_http", reach=["http.executed", "http.refused"], quick={"params": {"forms": 1}}, thorough={"params": {"forms": 1}},
+             what="Server.ServeHTTP -> GET / POST / application/graphql / urlencoded form / multipart form (real mime/multipart parsing) -> real Executor over 12 documents x operationName x 9 Accept headers x 4 ResponseHeaders configurations"),
         dict(_HTTP, harness="Harness_C09_sequence", setup="Setup_C09_sequence", reach=["seq.executed", "seq.refused"], quick={"sample_models": 30, "sample_every": 7},
              what="two requests (9 x 9 documents/operationNames incl. invalid ones, GET or POST each, query cache off / MapCache) through one server: the second executes exactly what it names or is refused on its own merits"),
         dict(_HTTP, harness="Harness_C09_malformed", setup="Setup_C09_malformed", reach=["bodies.rejected", "bodies.ok"],
@@ -164,7 +164,7 @@ CHECKS["C06"] = {
          "what": "every completion order of concurrently resolved fields / list elements at blocking points (plus 1 preemption, thorough) on 5 families x outcome deviations; data and error multiset equal the reference on each; vector-clock race check on every load/store"},
         {"probe": "core", "harness": "Harness_C06_invalids", "setup": "Setup_C06_schedules", "reach": ["c06.invalids"], "workers": 6, "race": True,
          "configs_quick": ["single", "wl2"], "configs_thorough": ["single", "wl1", "wl2", "follow"],
-         "quick": {"preempt": 1}, "thorough": {"preempt": 2},
+         "quick": {"preempt": 1}, "thorough": {"preempt": 2}, "native_retries": 3000,
          "what": "several non-null siblings failing concurrently (fixed outcomes): every schedule incl. preemptions; race check on the shared field set"},
         {"probe": "core", "harness": "Harness_C06_mutationSerial", "setup": "Setup_C06_schedules", "reach": ["c06.serial"], "workers": 6, "race": True,
          "configs_quick": ["single"], "configs_thorough": ["single", "wl1", "follow"],
@@ -253,7 +253,7 @@ CHECKS["C11"] = {
              what="wsConnection.subscribe + its goroutine: verdict x 0..2 payloads x panic at step k x subscription error x 3 start payloads"),
         dict(_WS, harness="Harness_C11_initTimeout", reach=["c11.timeout.fired"], sched_confirm=True, quick={"sample_models": 8},
              what="wsConnection.init with InitTimeout: silent client or connection_init, the timer firing at any scheduling point: decided once, closed once, the helper goroutine ends"),
-        dict(_WS, harness="Harness_C11_run", reach=["c11.run", "c11.run.op"], race=True, sched_confirm=True, workers=12,
+        dict(_WS, harness="Harness_C11_run", reach=["c11.run", "c11.run.op"], race=True, sched_confirm=True, native_retries=300, workers=12,
              quick={"params": {"maxlen": 2}, "sample_models": 12, "sample_every": 97}, thorough={"params": {"maxlen": 3}, "sample_models": 30, "sample_every": 997},
              what="wsConnection.run on every client script of 1..2 [3] frames over a 9-frame alphabet, long-lived operations, a scheduling decision before every frame, race check"),
     ],
@@ -400,7 +400,7 @@ CHECKS["C03"]["harnesses"].append(
 
 CHECKS["C06"]["harnesses"].append(
     {"probe": "core", "harness": "Harness_C06_listInvalids", "setup": "Setup_C06_schedules", "reach": ["c06.listinvalids"], "workers": 8, "race": True,
-     "configs_quick": ["single", "wl1", "wl2"], "configs_thorough": ["single", "wl1", "wl2", "follow_wl2"], "quick": {"sample_models": 6, "sample_every": 5}, "thorough": {"preempt": 1, "sample_models": 10, "sample_every": 31},
+     "configs_quick": ["single", "wl1", "wl2"], "configs_thorough": ["single", "wl1", "wl2", "follow_wl2"], "quick": {"sample_models": 6, "sample_every": 5}, "thorough": {"preempt": 1, "sample_models": 10, "sample_every": 31}, "native_retries": 3000,
      "what": "three elements of a [T!] list each failing in a non-null field, worker_limit 0/1/2: the list is null and all three errors are reported on every completion order; race check"})
 
 CHECKS["C09"]["harnesses"].append(
@@ -421,13 +421,13 @@ CHECKS["C04"]["harnesses"].append(
 # (frames of one operation never carry another operation's id)
 for _p in ("C05", "C07"):
     CHECKS[_p]["harnesses"].append(
-        dict(_WS, harness="Harness_C11_run", reach=["c11.run", "c11.run.op"], race=True, sched_confirm=True,
+        dict(_WS, harness="Harness_C11_run", reach=["c11.run", "c11.run.op"], race=True, sched_confirm=True, native_retries=300,
              quick={"params": {"maxlen": 2}, "sample_models": 8, "sample_every": 31}, thorough={"params": {"maxlen": 3}, "workers": 12, "sample_models": 12, "sample_every": 301},
              what="websocket reader loop on every client script of <=2 [3] frames with long-lived operations: per-id frames, stop / close cancel every affected operation, all goroutines end (shared with C11)"))
 
 # websocket frames of any type and order must not make gqlgen's own code panic (C10): the reader loop and the handshake
 CHECKS["C10"]["harnesses"].append(
-    dict(_WS, harness="Harness_C11_run", reach=["c11.run", "c11.run.op"], race=True, sched_confirm=True,
+    dict(_WS, harness="Harness_C11_run", reach=["c11.run", "c11.run.op"], race=True, sched_confirm=True, native_retries=300,
          quick={"params": {"maxlen": 2}, "sample_models": 8, "sample_every": 31}, thorough={"params": {"maxlen": 3}, "workers": 12, "sample_models": 12, "sample_every": 301},
          what="websocket reader loop on every client script of <=2 [3] frames (start / stop of known and unknown ids, ping, pong, terminate, unexpected and unreadable frames): no panic of gqlgen's own, protocol close (shared with C11)"))
 CHECKS["C10"]["harnesses"].append(
@@ -448,3 +448,56 @@ CHECKS["C12"]["harnesses"].append(
     dict(_WS, harness="Harness_C05_streams", reach=["c05.streams"], race=True, sched_confirm=True, native_retries=60,
          quick={"params": {"ticks": 1}, "sample_models": 10, "sample_every": 11}, thorough={"params": {"ticks": 2}, "workers": 14, "sample_models": 16, "sample_every": 211},
          what="SSE (keep-alive on) and multipart/mixed serving 1..2 payloads with the client gone (request context cancelled) while any payload is produced: nothing writes to the response after the handler returned, no concurrent use of the writer, no goroutine left (shared with C05)"))
+
+CHECKS["C09"]["harnesses"].append(
+    dict(_HTTP, harness="Harness_C09_presenter", setup="Setup_C09_presenter", reach=["c09.presenter"], quick={"sample_models": 30, "sample_every": 5},
+         what="a custom error presenter that rewrites the presented error in place (drops / replaces the code, the extensions, the message) x 5 invalid requests x Accept x GET / POST / application/graphql / form / multipart form: nothing executes and the status stays a client error"))
+
+# the complexity gate judges each request by its own variables, whatever the same (cached) document was served with before (C07's no-leak clause at the gate)
+CHECKS["C07"]["harnesses"].append(
+    {"pkg": "graphql/handler/extension", "harness": "Harness_C14_variables", "setup": "Setup_C14_walk", "reach": ["c14.vars.accepted", "c14.vars.rejected"], "workers": 6,
+     "quick": {"sample_models": 30, "sample_every": 3},
+     "what": "complexity gate through executor.CreateOperationContext after the same text was served with another variable value from a shared query cache: 6 operations x 4 values x int64|json.Number x prior none / larger / smaller, symbolic limit: verdict and recorded complexity are those of the request's own variables (shared with C14)"})
+
+# type-conditioned merging is part of C01's execution semantics; which selections an element of one concrete type gets must not depend on
+# which sibling elements (of other types) were collected before it completed - the schedule-exploring harness with the resolvers gated
+CHECKS["C01"]["harnesses"].append(
+    {"probe": "core", "harness": "Harness_C06_schedules", "setup": "Setup_C06_schedules", "reach": ["c06.compared"], "workers": 12, "race": True, "variant": "merge",
+     "configs_quick": ["single"], "configs_thorough": ["single", "wl2", "follow"],
+     "quick": {"params": {"budget": 0, "merge": 1}, "sample_models": 10, "sample_every": 37}, "thorough": {"params": {"budget": 1, "merge": 1}, "sample_models": 30, "sample_every": 101},
+     "what": "the families whose interface / union list elements of different concrete types merge type-conditioned selections into one response key, on every completion order of the concurrently resolved elements and fields: data and errors equal the reference (shared with C06)"})
+
+# containment counts errors: a failing non-null position gets exactly one error however the errors of concurrently failing siblings
+# interleave with it (the response's error list is shared, so the schedule - preemptions between reporting an error and asking whether
+# one was reported included - is part of the quantifier)
+CHECKS["C04"]["harnesses"].append(
+    {"probe": "core", "harness": "Harness_C06_invalids", "setup": "Setup_C06_schedules", "reach": ["c06.invalids"], "workers": 6, "race": True,
+     "configs_quick": ["single"], "configs_thorough": ["single", "wl2", "follow"],
+     "quick": {"preempt": 1}, "thorough": {"preempt": 2}, "native_retries": 3000,
+     "what": "several non-null siblings failing concurrently (error and null outcomes): on every completion order incl. 1 [2] preemptions at unlock / go / channel points the error multiset is the reference's - one error per failing position (shared with C06)"})
+CHECKS["C04"]["harnesses"].append(
+    {"probe": "core", "harness": "Harness_C06_listInvalids", "setup": "Setup_C06_schedules", "reach": ["c06.listinvalids"], "workers": 8, "race": True,
+     "configs_quick": ["single"], "configs_thorough": ["single", "wl2"], "quick": {"preempt": 1, "sample_models": 6, "sample_every": 5}, "thorough": {"preempt": 2, "sample_models": 10, "sample_every": 31}, "native_retries": 3000,
+     "what": "three elements of a [T!] list each failing in a non-null field: one error per failing element on every completion order incl. 1 [2] preemptions (shared with C06)"})
+
+# operations with @defer are valid operations too: merged in arrival order their payloads are the response C01 prescribes
+# (null propagation inside a deferred fragment stops at the fragment's object) - the defer harness against the defer-aware reference
+CHECKS["C01"]["harnesses"].append(
+    {"probe": "core", "harness": "Harness_C13_defer", "setup": "Setup_C13_defer", "reach": ["c13.compared", "c13.incremental"], "workers": 12, "sched_confirm": True,
+     "configs_quick": ["single"], "configs_thorough": ["single", "follow"], "map_permute": 3,
+     "quick": {"params": {"budget": 1}, "sample_models": 12, "sample_every": 41}, "thorough": {"params": {"budget": 1}, "sample_models": 30, "sample_every": 301},
+     "what": "11 @defer families x symbolic if: variables x one outcome deviation x every completion order of groups: the payloads merged in arrival order equal the defer-aware reference (shared with C13)"})
+
+CHECKS["C02"]["harnesses"].append(
+    {"probe": "core", "harness": "Harness_C02_methodArgs", "setup": "Setup_C02_methodArgs", "reach": ["c02.method"], "workers": 4, "sched": "first",
+     "configs_quick": ["single", "follow"], "configs_thorough": ["single", "follow", "funcsyn", "omitptr"], "quick": {"sample_models": 8},
+     "what": "a field bound to a model method whose parameter order differs from the schema's argument order (same Go type): literal, variable and defaulted arguments reach the parameter of their own name (4 operations, lists included)"})
+
+CHECKS["C05"]["harnesses"].append(
+    {"probe": "core", "harness": "Harness_C05_nestedLists", "setup": "Setup_C05_nestedLists", "reach": ["c05.nested"], "workers": 8, "sched": "first",
+     "configs_quick": ["single", "wl1", "wl2"], "configs_thorough": ["single", "wl1", "wl2", "follow_wl2"],
+     "what": "three levels of nested object lists (2..3 x 2..3 x 2 elements), worker_limit 0/1/2, no fault: the join terminates with the plain result (deadlock = every task blocked), nothing left running"})
+
+CHECKS["C10"]["harnesses"].append(
+    dict(_WS, harness="Harness_C10_wsFrames", reach=["c10.ws.frames"], quick={"sample_models": 40, "sample_every": 3}, thorough={"params": {"two": 1}, "sample_models": 60, "sample_every": 61},
+         what="the real frame decoders of graphql-ws and graphql-transport-ws on 43 text frames (every JSON kind at top level and in every member, unknown / missing / duplicated types, truncations) [thorough: every pair]: a message of a known type or errInvalidMsg, never a panic; gorilla's NextReader is a stub playing the frames, natively a loopback connection"))
